@@ -2,6 +2,7 @@ package analyzer
 
 import (
 	"fmt"
+	"sort"
 
 	"github.com/smarthome-go/homescript/v3/homescript/analyzer/ast"
 	"github.com/smarthome-go/homescript/v3/homescript/errors"
@@ -69,7 +70,22 @@ func (self *Analyzer) WithCapabilities(
 	// This way, redundant compatibility errors are not shown
 	conflictsReverse := make(map[string]string)
 
-	for capName, capability := range capabilitiesOfImplementation {
+	// In the order in which the capabilities are written (not in the iteration order of the map):
+	// which one of two conflicting capabilities is reported must not change from run to run.
+	capNames := make([]string, 0, len(capabilitiesOfImplementation))
+	for capName := range capabilitiesOfImplementation {
+		capNames = append(capNames, capName)
+	}
+	sort.Slice(capNames, func(a, b int) bool {
+		spanA, spanB := capabilitiesOfImplementation[capNames[a]].Span, capabilitiesOfImplementation[capNames[b]].Span
+		if spanA.Start.Index != spanB.Start.Index {
+			return spanA.Start.Index < spanB.Start.Index
+		}
+		return capNames[a] < capNames[b]
+	})
+
+	for _, capName := range capNames {
+		capability := capabilitiesOfImplementation[capName]
 		// Check that there are no capability conflicts
 		containsErr, conflictFound, diagnotsics := ast.DetermineCapabilityConflicts(
 			templateSpec,
